@@ -901,6 +901,8 @@ def _decide_return(pw, spec, paths):
 
 
 def check(run, fx, tier, floors=True):
+    import bsearch
+    bsearch.rule_bsearch(run, fx, "T04-BS", select=lambda b: b.file.startswith(('src/layout.rs', 'src/gsub.rs', 'src/context.rs')), floors=floors, floor_n=1)
     import ignored
     ignored.run_for(run, fx, 'C04', floors)
     if floors or fx.body("layout::ConditionTable::matches") is not None:
